@@ -5,6 +5,7 @@ from __future__ import annotations
 
 import itertools
 import json
+import os
 import random
 import shutil
 import tempfile
@@ -206,6 +207,15 @@ def _timed(fn, timeout=90):
     th.start()
     th.join(timeout)
     if th.is_alive():
+        # the clock alone is a poor judge on a loaded machine: a pass over a handful of tiny shards that is still
+        # running after `timeout` gets a grace period several times as long (scaled by the load) before it is
+        # called a hang
+        try:
+            load = os.getloadavg()[0] / max(1, os.cpu_count() or 1)
+        except OSError:
+            load = 1.0
+        th.join(timeout * max(3.0, min(12.0, 3.0 * load)))
+    if th.is_alive():
         return "hang", None
     if "e" in box:
         return "raise", box["e"]
@@ -245,6 +255,8 @@ def read_grid(task: dict) -> dict:
                 if not readers.supports(iface, fmt, comp):
                     continue
                 fp = cfg["fp"] if cfg["fp"] != "many" else nshards[split] + 2
+                if cfg["fp"] == "many+2":
+                    fp = 2 * nshards[split] + 1
                 shuffle = cfg["shuffle"] if cfg["shuffle"] != "big" else n + 5
                 if cfg["shuffle"] == "n":
                     shuffle = n
@@ -289,6 +301,14 @@ def read_grid(task: dict) -> dict:
                     if ref is None:
                         continue
                     o = {"want": ref, "got": got, "mode": "subseq"}
+                elif mode == "seq" and cfg["repeat"]:
+                    if ref is None:
+                        continue
+                    if len(got) != take:
+                        out["problems"].append(("stream-ended", desc + f": the repeating stream ended after "
+                                                f"{len(got)} of {take} requested examples", cfg))
+                        continue
+                    o = {"want": ref, "got": got, "mode": "periodic"}
                 elif mode == "seq":
                     if ref is None:
                         ref = got
